@@ -588,8 +588,18 @@ func ruleR10_4(p *Program, r *Report) {
 				continue
 			}
 			a := c.Common().Args[0]
-			b, isK := constBool(a)
-			ok := a == ssa.Value(fn.Params[1]) || (isK && b)
+			flagOK := func(v ssa.Value) bool {
+				b, isK := constBool(v)
+				return v == ssa.Value(fn.Params[1]) || (isK && b)
+			}
+			ok := flagOK(a)
+			if phi, isPhi := a.(*ssa.Phi); isPhi && !ok {
+				// the flag reassigned on one path (flush = true after the assembly kernel): every edge is the parameter or true
+				ok = len(phi.Edges) > 0
+				for _, e := range phi.Edges {
+					ok = ok && flagOK(e)
+				}
+			}
 			r.Check(ok, "R10.4", shortFn(fn)+"|"+lab.get("lz77"), p.InstrPos(c), "generate passes its flush flag (or true) on to the match finder", "passes "+describeValue(a)+": a Flush would leave the last bytes unresolved")
 		}
 	}
